@@ -24,7 +24,7 @@ def choose_versions(run, exe, U, acc, rnd, nclass, nsingle):
     for e in ECOS:
         sample[e] = rnd.sample(acc[e], min(len(acc[e]), 420 if run.tier == "quick" else 3000))
         sample[e] += [t for t in fam[e] if t not in set(sample[e])]
-        jobs.append({"k": "matrix", "eco": e, "tag": "pre", "texts": sample[e], "part": [part[e].get(t, 0) for t in sample[e]]})
+        jobs.append({"k": "matrix", "eco": e, "tag": "pre", "texts": sample[e], "part": [vlib.part_of(e, t) for t in sample[e]]})
     jp, ep = run.path("pre.jobs"), run.path("pre.ev")
     vlib.write_ndjson(jp, jobs); vlib.run_harness(run, exe, jp, ep)
     out = {}
@@ -96,7 +96,7 @@ def check(run):
                 rs = rnd.sample(rs, 500)
             nranges += len(rs)
             for i in range(0, len(rs), 250):
-                jobs.append({"k": "members", "eco": e, "texts": versions[e], "part": [part[e].get(t, 0) for t in versions[e]],
+                jobs.append({"k": "members", "eco": e, "texts": versions[e], "part": [vlib.part_of(e, t) for t in versions[e]],
                              "ranges": rs[i:i + 250]})
     nsh = 8
     shards = [jobs[i::nsh] for i in range(nsh)]
